@@ -673,6 +673,10 @@ fn main() {
                 }
             }
         }
+        if std::env::args().any(|a| a == "-v") {
+            print!("{}", seeds_m2::report());
+            print!("{}", seeds_wmo::report());
+        }
         std::process::exit(if bad { 2 } else { 0 });
     }
     if std::env::args().any(|a| a == "--repro") {
